@@ -115,6 +115,9 @@ class RunMonitor:
         self.flags = set()
         self.monitor_errors = []
         self.last_neighbors = None
+        self.n_incumbent_updates = 0
+        self._prev_loop_u = None
+        self._prev_loop_upd = 0
         try:
             sd_ = int(spec["options"].get("random_seed") or 0)
         except (TypeError, ValueError):
@@ -514,6 +517,15 @@ class RunMonitor:
 
         patch.set(B, "_search_step_", search)
 
+        o_upd = B._update_incumbent_
+
+        def upd(b, *a, **k):
+            if b is mon.bads:
+                mon.n_incumbent_updates += 1
+            return o_upd(b, *a, **k)
+
+        patch.set(B, "_update_incumbent_", upd)
+
         o_imp = B._eval_improvement_
 
         def imp(b, f_base, f_new, s_base, s_new, q):
@@ -741,6 +753,14 @@ class RunMonitor:
                 self.v("C13/mesh-changed-after-poll", k_at_poll_exit=self.polls[-1]["k1"], k=k)
             if b.optim_state["search_mesh_size"] > b.optim_state["mesh_size"]:
                 self.v("C13/search-mesh-exceeds-poll-mesh", sms=b.optim_state["search_mesh_size"], mesh=b.optim_state["mesh_size"], where="loop-end")
+        # measured: the incumbent point changed in this iteration WITHOUT an incumbent update, i.e. the
+        # noisy-history re-estimation swapped it for an earlier iterate
+        u_now = np.array(b.u, float, copy=True).ravel()
+        if self._prev_loop_u is not None and not np.array_equal(u_now, self._prev_loop_u) and self.n_incumbent_updates == self._prev_loop_upd:
+            self.flags.add("incumbent-swapped-to-earlier-iterate")
+            self.c("incumbent_swaps")
+        self._prev_loop_u = u_now
+        self._prev_loop_upd = self.n_incumbent_updates
         if "C19" in self.want:
             self.c("C19.loop_ends")
             self._check_incumbent_tuple(b, "loop_end", st["i"])
